@@ -234,6 +234,12 @@ func ruleDurationParse(c *eng.Ctx) {
 			}
 			nU++
 			c.MustPass(rule, "ParseDuration:unit-not-seen-before→"+name, eng.Entry(fn), st, eng.NewCut().AddEdges(unseen...), "the unit was not given before")
+			if name != "Hours" {
+				// years, months and days go to time.Time.AddDate, which wraps silently far outside
+				// the range of time.Time (genuine defect, fixed: the cutoff landed in the future)
+				c.MustPass(rule, "ParseDuration:count<=max→"+name, eng.Entry(fn), st, eng.NewCut().AddEdges(upper...), "the count does not exceed a constant bound")
+				c.MustPass(rule, "ParseDuration:count>=-max→"+name, eng.Entry(fn), st, eng.NewCut().AddEdges(lower...), "the count is not below the negative bound")
+			}
 		}
 	}
 	c.Check(nU == 4, rule, "ParseDuration:unit-stores", fn.Pos(), "four unit assignments (%d)", nU)
